@@ -117,7 +117,8 @@ def c05(tier, seed):
             # unwrap_or_clone perform after the clone) must free the block when it turns out to be the last
             mm("C05", tier, "mm_release_" + tier[0], [("c05_2x3", ["clone", "drop", "make_mut"], 2, 3, 2, False)] if tier == "quick" else
                [("c05_2x3", ["clone", "drop", "make_mut"], 2, 3, 2, False), ("c05_2x3u", ["clone", "drop", "unwrap_or_clone", "try_unwrap"], 2, 3, 2, False),
-                ("c05_3x2", ["clone", "drop", "make_mut"], 3, 2, 1, False)])]
+                ("c05_3x2", ["clone", "drop", "make_mut"], 3, 2, 1, False)]),
+            inj("C05", tier)]
 
 
 def c11(tier, seed):
@@ -178,7 +179,9 @@ def c06(tier, seed):
     return [stage(CT.ctor_stage, "C06", tier, "ctor_honest_" + tier[0], ["fhi", "thin", "collect", "vec", "slice", "str"], False),
             sized("C06", tier, "sized_ctor_" + tier[0], BASE + ["Shareable", "IntoInner", "TryUnwrap"], 3 if tier == "quick" else 4, 3, 1, hows=hows),
             lay("C06", tier, "layout_matrix_" + tier[0]),
-            stage(CT.ctor_stage, "C06", tier, "zst_" + tier[0], ["zst"], True, only_cats=["drops", "leak", "layout", "panicked", "crash"])]
+            stage(CT.ctor_stage, "C06", tier, "zst_" + tier[0], ["zst"], True, only_cats=["drops", "leak", "layout", "panicked", "crash"]),
+            # also when the iterator panics or misreports: every input element is destroyed at most once, and nothing that was never an input is
+            stage(CT.ctor_stage, "C06", tier, "ctor_faulty_" + tier[0], ["fhi", "thin", "collect", "vec"], True, only_cats=["baddrop", "drops", "overrun", "crash"])]
 
 
 def c07(tier, seed):
@@ -428,7 +431,7 @@ LAYOUT_ASSUME = [
 ]
 
 PROPS = {
-    "C05": {"level": "model_checking", "stages": c05, "assumptions": LAYOUT_ASSUME + MM_ASSUME, "replay": any_replay},
+    "C05": {"level": "model_checking", "stages": c05, "assumptions": LAYOUT_ASSUME + MM_ASSUME + GRAPH_ASSUME, "replay": any_replay},
     "C11": {"level": "model_checking", "stages": c11, "assumptions": LAYOUT_ASSUME + GRAPH_ASSUME + SWAP_ASSUME, "replay": any_replay},
     "C10": {"level": "model_checking", "stages": c10, "assumptions": GRAPH_ASSUME + LAYOUT_ASSUME + MM_ASSUME + SWAP_ASSUME, "replay": any_replay},
     "C15": {"level": "model_checking", "stages": c15, "assumptions": GRAPH_ASSUME + MM_ASSUME + LAYOUT_ASSUME + SWAP_ASSUME, "replay": any_replay},
